@@ -288,7 +288,7 @@ def tie_scanners(c, tier, only=None):
                     small = s
                 l = f"scan {name} {hx(small)}"
                 c.problem("correspondence", key, f"input={hx(small)} impl={vlib.run_one(vh, l)} model={vlib.run_one(drv, l)} (first of {len(uniq) - agree} disagreements)",
-                          {"fn": name, "input": hx(small), "original": hx(s), "impl": a, "model": m})
+                          {"line": l, "fn": name, "input": hx(small), "original": hx(s), "impl": a, "model": m})
             info.update({"cases": len(uniq), "agree": agree, "impl_matches": matched, "enumerated": len(cases), "derived": len(der), "long": len(longs)})
             c.cov["correspondences"][key] = info
             if len(c.cov["samples"]) < 12 and matched:
